@@ -88,6 +88,7 @@ struct OpRec {
     bool alloc_failed = false;
     std::vector<BufReg> bufs;
     u64 edges = 0;
+    u64 selftest_norms = 0;        // normalisation calls made by the self-test inside polyseed_inject (not logged one by one)
     std::string str() const;       // address-free
 };
 
@@ -98,6 +99,7 @@ struct Task {
     int id;
     pthread_t th;
     u8* stack_lo; size_t stack_size;
+    u8* seam_stack; size_t seam_stack_size;   // side stack on which dependency bodies run (uninstrumented builds)
     sem_t go;
     volatile int state;
     std::function<void()> job;
